@@ -39,6 +39,7 @@ def run(ctx: RuleContext):
     ctx.sub(check_push_cannot_fail_after_append, ctx, r)
     ctx.sub(check_only_innermost_frame_is_read, ctx, r)
     ctx.sub(check_no_frame_state_beside_the_stack, ctx, r)
+    ctx.sub(check_generator_detection_unwraps_fully, ctx)
 
 
 # ------------------------------------------------------------------------ C05.5
@@ -823,3 +824,40 @@ def check_no_frame_state_beside_the_stack(ctx: RuleContext, r):
                 construct=f"per-frame state beside the stack: {attr}")
     if not pushed:
         ctx.ok("C05.9", push.qualname, f"the push function writes no thread-local / module-level slot besides the stack `{stack_attr}`")
+
+
+# ------------------------------------------------------------------------ C05.10
+def check_generator_detection_unwraps_fully(ctx: RuleContext):
+    """Old-style `@jaxtyped @typechecker def gen(): yield ..`: the wrapper returns (and pops its frame) before the generator body runs, so the
+    typechecker's per-`next()` checks of the *return annotation* would run in the consumer's context -- a second call sees the first call's
+    bindings.  jaxtyped therefore makes the return annotation of generator functions transparent; whether `fn` is one is asked of the innermost
+    function of the whole `__wrapped__` chain (any number of `functools.wraps` decorators may sit in between)."""
+    m = ctx.model
+    jt = m.func("_decorator.jaxtyped")
+    ctx.saw(jt)
+    probes = [c for c in ast.walk(jt.node) if isinstance(c, ast.Call) and norm(c.func).split(".")[-1] in ("isgeneratorfunction", "isasyncgenfunction") and c.args]
+    ctx.counters["generator_probes"] = len(probes)
+    ctx.floor("C05.10", "generator_probes", 1)
+    for c in probes:
+        a = c.args[0]
+        if isinstance(a, ast.Call) and norm(a.func) in ("inspect.unwrap", "unwrap"):
+            ctx.ok("C05.10", jt.qualname, f"`{short(c, 50)}` asks the fully unwrapped function")
+            continue
+        if not isinstance(a, ast.Name):
+            raise AnalysisError(f"C05.10: `{short(c, 50)}`: what is asked whether it is a generator function was not recognised")
+        v = a.id
+        loops = [w for w in ast.walk(jt.node) if isinstance(w, ast.While) and "__wrapped__" in norm(w.test) and any(
+            isinstance(st, ast.Assign) and any(isinstance(t, ast.Name) and t.id == v for t in st.targets) and "__wrapped__" in norm(st.value) for st in ast.walk(w))]
+        unwrap_call = [st for st in ast.walk(jt.node) if isinstance(st, ast.Assign) and any(isinstance(t, ast.Name) and t.id == v for t in st.targets)
+                       and isinstance(st.value, ast.Call) and norm(st.value.func) in ("inspect.unwrap", "unwrap")]
+        if loops or unwrap_call:
+            ctx.ok("C05.10", jt.qualname, f"`{short(c, 50)}`: `{v}` is the end of the whole `__wrapped__` chain")
+            continue
+        once = [st for st in ast.walk(jt.node) if isinstance(st, ast.Assign) and any(isinstance(t, ast.Name) and t.id == v for t in st.targets) and "__wrapped__" in norm(st.value)]
+        if once or v in jt.params:
+            ctx.bad("C05.10", jt, once[0] if once else c, f"`{short(c, 50)}` asks " + (f"`{short(once[0], 50)}`: one level of `__wrapped__` only" if once else f"the decorated object `{v}` itself") +
+                    ": a generator function under one more `functools.wraps` decorator is not recognised, its return annotation is not made transparent, and the typechecker's per-item "
+                    "checks run after the call has returned -- in the consumer's binding context (a later call is checked against an earlier call's bindings)",
+                    construct="generator detection does not unwrap the whole __wrapped__ chain")
+            continue
+        raise AnalysisError(f"C05.10: how `{v}` (asked whether it is a generator function) is obtained from the decorated function was not recognised")
